@@ -2,6 +2,7 @@
 # usage: tools/try_mutant.sh <patch.diff> <PROP> [PROP...]   — apply a seeded change to /repo, run the quick checks, undo it
 p="$1"; shift
 cd /verif
+git -C /repo diff --quiet || { echo "refusing: /repo has uncommitted changes (commit them first)"; exit 2; }
 git -C /repo apply "$p" || { echo "patch does not apply"; exit 2; }
 for id in "$@"; do ./check "$id" quick 2>&1 | grep -v "^KNOWN-FINDING\|^NOTE" | tail -6; done
 git -C /repo checkout -- .
